@@ -426,6 +426,43 @@ def suite_flow_model(ctx, res, n):
     finally:
         shutil.rmtree(tmp, ignore_errors=True)
 
+def suite_maximum_color_options(ctx, res, n):
+    """options given to `maximum_color` (the other command-line entry point) must reach the tables it adds: `--bitmap_resolution N` decides both the
+    size of the rendered bitmaps and the strike's ppem"""
+    import io as _io
+    from fontTools import ttLib
+    from PIL import Image
+    from harness import fontgen
+
+    for k in range(n):
+        res_px = [64, 96, 32, 128][k % 4]
+        d = common.scratch_dir("c20mc")
+        try:
+            svgs = [cli.simple_svg(i, vb=100) for i in range(2)]
+            metrics = {"upem": 1024, "ascender": 950, "descender": -250, "width": 1275}
+            case = {"id": f"mc-opt:{res_px}", "seed": 0, "fmt": "glyf_colr_1", "svgs": svgs, "codepoints": [[0x1F600], [0x1F601]],
+                    "config": dict(metrics, color_format="glyf_colr_1", reuse_tolerance=0.1, keep_glyph_names=True)}
+            out = fontgen.build(case)
+            res.count(key=("mc-opt", res_px), nontrivial=res_px != 128)
+            if "err" in out:
+                continue
+            (d / "in.ttf").write_bytes(out["bytes"])
+            rc, outp = cli.maximum_color(["--build_dir", d / "b", "--bitmaps", "--bitmap_resolution", str(res_px), d / "in.ttf"], d)
+            fp = d / "b" / "Font.ttf"
+            if rc != 0 or not fp.exists():
+                res.add_cex("maximum_color --bitmaps --bitmap_resolution N fails", {"resolution": res_px, "tail": outp[-400:]}, {"site": "c20-mc-build", "resolution": res_px})
+                continue
+            font = ttLib.TTFont(str(fp), lazy=False)
+            want_ppem = round(metrics["upem"] * res_px / (metrics["ascender"] - metrics["descender"]))
+            ppems = sorted({st.bitmapSizeTable.ppemX for st in font["CBLC"].strikes})
+            heights = sorted({Image.open(_io.BytesIO(bytes(gl.imageData))).size[1] for sd in font["CBDT"].strikeData for gl in sd.values()})
+            res.stat("mc-opt:built")
+            if heights != [res_px] or ppems != [want_ppem]:
+                res.add_cex(f"maximum_color --bitmap_resolution {res_px}: bitmaps are {heights} px tall, strike ppem {ppems} (expected {res_px} px, ppem {want_ppem})",
+                            {"resolution": res_px, "heights": heights, "ppem": ppems}, {"site": "c20-mc-option", "resolution": res_px})
+        finally:
+            shutil.rmtree(d, ignore_errors=True)
+
 
 def run(ctx, res):
     nano.init()
@@ -436,6 +473,7 @@ def run(ctx, res):
     suite_matrix(ctx, res, ctx.thorough)
     suite_pairs(ctx, res, ctx.budget(3, 9))
     suite_rerun(ctx, res, ctx.budget(3, 6))
+    suite_maximum_color_options(ctx, res, ctx.budget(2, 4))
 
 
 def search(ctx, res, broken):
